@@ -4,6 +4,8 @@ per op.  Core Lean only (must link as a native executable).
 -/
 import Verif.Model.Scanner
 import Verif.Model.CharMap
+import Verif.Model.States
+import Verif.Model.Tokenizer
 
 open Verif
 
@@ -99,12 +101,122 @@ def doCmap (args : List String) : String :=
       | none => "bad"
     " ".intercalate model ++ " | " ++ " ".intercalate spec
 
+
+/-! ### tokenizers -/
+
+def showTok (t : Tok) : String := s!"{t.typ}:{showRunes t.value}:{t.line}:{t.col}"
+def showToks (l : List Tok) : String := if l.isEmpty then "-" else " ".intercalate (l.map showTok)
+
+def parseKind (k : String) : Option Cfg :=
+  if k == "g" then some genericCfg
+  else if k == "e" then some expressionCfg
+  else if k == "m" then some mustacheCfg
+  else match k.splitOn ":" with
+    | ["c", seps, quotes] =>
+      let ss := parseRunes seps; let qs := parseRunes quotes
+      if csvValid ss qs then some (csvCfg ss qs) else none
+    | _ => none
+
+def bit (n i : Nat) : Bool := (n / (2 ^ i)) % 2 == 1
+
+/-- bit0 skipUnknown, 1 skipWhitespaces, 2 skipComments, 3 skipEof, 4 merge, 5 unify, 6 decode -/
+def parseOpts (s : String) : Opts :=
+  let n := s.toNat?.getD 0
+  ⟨bit n 0, bit n 1, bit n 2, bit n 3, bit n 4, bit n 5, bit n 6⟩
+
+def doTok (args : List String) : String :=
+  match args with
+  | [k, o, inp] =>
+    match parseKind k with
+    | some cfg => showToks (tokenize cfg (parseOpts o) (parseRunes inp))
+    | none => "panic"
+  | _ => "bad-op"
+
+/-- spec side of C15: post-processing of the raw stream (+ Eof) -/
+def doTokSpec (args : List String) : String :=
+  match args with
+  | [k, o, inp] =>
+    match parseKind k with
+    | some cfg =>
+      let c := parseRunes inp
+      let raw := rawAllA cfg (c.length + 2) (Scanner.new c)
+      showToks (post cfg (parseOpts o) TT.unknown raw)
+    | none => "panic"
+  | _ => "bad-op"
+
+/-- has-next interleaving: pattern digit i = number of HasNextToken calls before the i-th NextToken -/
+partial def drainH (cfg : Cfg) (o : Opts) (pat : List Nat) (i : Nat) (st : TState) (acc : List Tok) (fuel : Nat) : List Tok :=
+  if fuel == 0 then acc.reverse else
+  let k := pat.getD (i % (max pat.length 1)) 0
+  let st1 := (List.range k).foldl (fun st _ => (hasNext cfg o st).2) st
+  match nextTok cfg o st1 with
+  | (none, _) => acc.reverse
+  | (some t, st2) => drainH cfg o pat (i+1) st2 (t :: acc) (fuel - 1)
+
+def doTokH (args : List String) : String :=
+  match args with
+  | [k, o, pat, inp] =>
+    match parseKind k with
+    | some cfg =>
+      let c := parseRunes inp
+      let p := pat.toList.map (fun ch => ch.toNat - 48)
+      showToks (drainH cfg (parseOpts o) p 0 (TState.start c) [] (c.length + 3))
+    | none => "panic"
+  | _ => "bad-op"
+
+/-! ### symbol tables: `sym <runes:type>* ! <input>` -/
+
+partial def symAll (t : SymTab) (s : Scanner) (acc : List Tok) (fuel : Nat) : List Tok :=
+  if fuel == 0 then acc.reverse else
+  match s.peek with
+  | none => acc.reverse
+  | some _ =>
+    let r := t.nextToken (s.content.length + 2) s
+    symAll t r.2 (r.1 :: acc) (fuel - 1)
+
+def doSym (args : List String) : String :=
+  let regsS := args.takeWhile (· != "!")
+  let inp := ((args.dropWhile (· != "!")).drop 1).headD "-"
+  let regs := regsS.filterMap fun r =>
+    match r.splitOn ":" with
+    | [rs, ty] => (ty.toNat?).map fun n => (parseRunes rs, n)
+    | _ => none
+  if regs.length != regsS.length then "bad-op" else
+  let t := regs.foldl (fun t e => t.add e.1 e.2) SymTab.empty
+  let c := parseRunes inp
+  showToks (symAll t (Scanner.new c) [] (c.length + 2))
+
+/-! ### quote codecs: `quote g|e|c <q> enc|dec|tok <text>` -/
+
+def doQuote (args : List String) : String :=
+  match args with
+  | [st, q, what, txt] =>
+    match q.toNat? with
+    | none => "bad-op"
+    | some q =>
+      let v := parseRunes txt
+      let esc := st != "g"
+      if what == "enc" then showRunes (if esc then encodeEsc q v else encodeGeneric q v)
+      else if what == "dec" then showRunes (if esc then decodeEsc q v else decodeGeneric q v)
+      else if what == "tok" then
+        let s := Scanner.new v
+        let r := if st == "g" then genericQuoteState (v.length + 2) s
+                 else escQuoteState (st == "e") (v.length + 2) s
+        s!"{showTok r.1} {showOR r.2.peek}"
+      else "bad-op"
+  | _ => "bad-op"
+
 def handle (line : String) : String :=
   match (line.trimAscii.toString.splitOn " ").filter (· != "") with
   | [] => ""
   | "scan" :: args => doScan args
   | "scanspec" :: args => doScanSpec args
   | "cmap" :: args => doCmap args
+  | "tok" :: args => doTok args
+  | "tokspec" :: args => doTokSpec args
+  | "tokh" :: args => doTokH args
+  | "sym" :: args => doSym args
+  | "quote" :: args => doQuote args
   | _ => "bad-op"
 
 end Drv
